@@ -94,12 +94,3 @@ var lockExemptTxPoolMu = map[string]string{
 	"data/pools.MakeTransactionPool": "constructor: the pool is not shared yet",
 }
 
-func init() {
-	register(&Prop{ID: "XLK", Patterns: []string{"./ledger", "./data/pools"}, Explanation: "debug: lock tables", Run: func(c *Ctx) {
-		lockTxPool(c, "L.tp")
-		lockAccountUpdates(c, "L.au")
-		lockOnlineAccounts(c, "L.ao")
-		lockTxTail(c, "L.tt")
-		lockBlockQueue(c, "L.bq")
-	}})
-}
